@@ -8,8 +8,8 @@ from harness import zones as Z
 
 ID = "C02"
 BACKENDS = ("py", "rs")
-GEN_MODULES = ("Convert",)
-MIN_THEOREMS = 14
+GEN_MODULES = ("Convert", "DTConv")
+MIN_THEOREMS = 20
 US = D.US
 YMAX = Z.YMAX_QUICK
 ENTRIES = ("datetime", "tzconvert", "tzconvert_pdt", "tzdatetime", "set", "on", "at", "replace", "replace_fold", "parse", "local", "instance", "naivefn",
